@@ -419,6 +419,20 @@ def handler : Handler := fun op j =>
     match convInit hn n mode a b with
     | none => some (err "value")
     | some odt => some (ok (jS (dtName odt)))
+  | "prop" => do
+    -- Propagator._eval = F.inv(D @ F @ x), F = DFT(ns, axes_shape = ms) over all axes, default norm: the code as it is
+    -- (`propEval`, coded inverse) and the documented operator (`propEvalDoc`)
+    let ns ← fNats? j "ns"; let ms ← fNats? j "ms"
+    let re ← fFloats? j "dre"; let im ← fFloats? j "dim"
+    let Nin := prodL ns
+    let Nout := prodL ms
+    let Da := ctab Nout (cvecOf re im)
+    let D : V Cx := cget Da
+    let mk (dims : List Nat) (inv : Bool) : List (Option Cx) := dims.map (fun n => some (rootC n inv))
+    let basis (q : Nat) : V Cx := fun p => if p = q then 1 else 0
+    some (ok (jObj [
+      ("coded", jCMat (fun p q => propEval ns ms (mk ms false) (mk ns true) 1 (cscale (1.0 / Nin.toFloat)) D (basis q) p) Nin Nin),
+      ("doc", jCMat (fun p q => propEvalDoc ns ms (mk ms false) (mk ms true) 1 (cscale (1.0 / Nout.toFloat)) D (basis q) p) Nin Nin)]))
   | "dftinit" => do
     let shape ← fNats? j "shape"
     let axes := fInts? j "axes"
